@@ -71,9 +71,10 @@ def oracle(ctx, seeds=None):
                 sch = ['muscl', str(rng.choice(LIMS))]; cfl = float(rng.choice([0.5, 0.4, rng.uniform(0.05, 0.5)])); integ = str(rng.choice(SSP))
         msh = cfg1d.make_mesh(md)
         disc = impl.modeldisc.fvm(mod, msh, cfg1d.make_scheme(sch))
-        u0 = data(rng, n, kind, burg)
+        scale = float(10.0 ** int(rng.choice([0, 0, 0, -12, -6, -9, 6])))   # the schemes are scale invariant: tiny and huge amplitudes too
+        u0 = data(rng, n, kind, burg) * scale
         nsteps = int(rng.integers(1, 12))
-        rp = dict(model='burgers' if burg else 'conv', a=None if burg else a, mesh=md, scheme=sch, integrator=integ, cfl=cfl, u0=u0.tolist(), nsteps=nsteps)
+        rp = dict(model='burgers' if burg else 'conv', a=None if burg else a, mesh=md, scheme=sch, integrator=integ, cfl=cfl, scale=scale, u0=u0.tolist(), nsteps=nsteps)
         def run():
             s = getattr(impl.integ, integ)(msh, disc)
             f = impl.field.fdata(mod, msh, [u0.copy()])
